@@ -65,6 +65,16 @@ DEDICATED = {'CASE': 'Keyword', 'IN': 'Keyword', 'VALUES': 'Keyword', 'USING': '
              'AS': 'Keyword', 'JOIN': 'Keyword', 'END': 'Keyword', 'ASC': 'Keyword.Order', 'DESC': 'Keyword.Order',
              'CREATE': 'Keyword.DDL', 'LIKE': 'Operator.Comparison', 'ILIKE': 'Operator.Comparison',
              'RLIKE': 'Operator.Comparison', 'REGEXP': 'Operator.Comparison'}
+# first words of the dedicated multi-word keyword rules as LEFT context: a following word must stay its own token
+# unless it is one of the listed completions of that rule (word boundaries of the multi-word rules)
+WORD_LEFTS = {
+    'order ': {'BY'}, 'group ': {'BY'}, 'primary ': {'KEY'}, 'union ': {'ALL'}, 'end ': {'IF', 'LOOP', 'WHILE', 'CASE'},
+    'not ': {'NULL', 'LIKE', 'ILIKE', 'RLIKE', 'REGEXP'}, 'nulls ': {'FIRST', 'LAST'}, 'double ': {'PRECISION'},
+    'left ': {'JOIN', 'INNER', 'OUTER', 'STRAIGHT'}, 'full ': {'JOIN', 'INNER', 'OUTER', 'STRAIGHT'},
+    'inner ': {'JOIN'}, 'outer ': {'JOIN'}, 'cross ': {'JOIN'}, 'natural ': {'JOIN'}, 'create or ': {'REPLACE'},
+    'handler ': {'FOR'}, 'order\n': {'BY'}, 'end\t': {'IF', 'LOOP', 'WHILE', 'CASE'}, 'asc nulls ': {'FIRST', 'LAST'},
+    'lateral view ': {'EXPLODE', 'INLINE', 'PARSE_URL_TUPLE', 'POSEXPLODE', 'STACK'}, 'x ': set(), '1 ': set(),
+}
 NONWORDS = ['foo', 'xyzzy', 'selectx', 'éa', 'a1', 'x_y', 'fromage', 'endx', 'ascii_']
 
 
@@ -160,6 +170,18 @@ def run(tier, seed):
                         expect = look[up][0]
                     else:
                         expect = 'Name'
+                    for l, completions in WORD_LEFTS.items():
+                        if up in completions or (l.startswith('create') and up == 'REPLACE'):
+                            continue
+                        for cw in (w.lower(), w.upper()):
+                            for r in ('', ' ', ',', ';'):
+                                bad = check_lexeme(lexer, l, cw, r, expect)
+                                acc.case(l + cw + r, True, outcome='word-after-keyword',
+                                         sample={'left': l, 'word': cw, 'right': r, 'expect': expect})
+                                if bad:
+                                    acc.violation({'kind': 'word-type', 'sig': f'after-keyword:{l.strip()}|{up}|got={bad[0]}',
+                                                   'text': l + cw + r, 'left': l, 'lexeme': cw, 'right': r, 'expect': expect,
+                                                   'detail': f'token at the edge: {bad!r}', 'size': len(cw)})
                     for cw in casings(w, tier):
                         for l in lefts:
                             for r in rights:
